@@ -81,6 +81,9 @@ STATIC = [
     C(29, "BagE", own=[F("content", "wild", "any", True, "##any"), F("by", "attr")]),
     # an element before and after a wildcard: get_element_vars has to sort (wildcards come first in its chain)
     C(25, "WildMid", ns="urn:w", own=[F("head"), F("body", "wild", "any", True, "##any"), F("foot")]),
+    # QName element / attribute values in a namespaced class: text sources and TREE sources through one parser
+    # (the prefixes a tree source gets are generated per call; the parser's own recorder must not take part)
+    C(39, "NsRef", ns="urn:r", own=[F("ref", pytype="Optional[QName]"), F("kind", "attr", pytype="Optional[QName]")]),
 ]
 # compound (Elements / choices) fields with several primitive choices in every order: a str value is
 # matched to the FIRST choice whose converter accepts it, so which element a value is written as /
@@ -555,6 +558,16 @@ def build_ops(ck, fresh_ser, fresh_enc):
             doc=f'<h:Holder xmlns:h="urn:h" xmlns:p="urn:h2" xmlns:xsi="{XSI}"><h:item xsi:type="p:Der2"><h:b>1</h:b></h:item></h:Holder>', **kw)
         add(f"oparse:Holder-undecl-p:{hd}", (), kind="oparse", clazz=9,
             doc=f'<h:Holder xmlns:h="urn:h" xmlns:xsi="{XSI}"><h:item xsi:type="p:Der2"><h:b>1</h:b></h:item></h:Holder>', **kw)
+        # text and tree sources (xml.etree for the native handler, lxml trees for the lxml handler) of a namespaced
+        # class with QName values, through ONE parser (seed C14-r5m1: the recorder handed to iterwalk)
+        add(f"oparse:NsRef-dflt:{hd}", (), kind="oparse", clazz=39, doc='<NsRef xmlns="urn:r" kind="plain"><ref>item</ref></NsRef>', **kw)
+        add(f"oparse:NsRef-pfx:{hd}", (), kind="oparse", clazz=39,
+            doc='<r:NsRef xmlns:r="urn:r" xmlns:ns0="urn:other" kind="ns0:k"><r:ref>ns0:item</r:ref></r:NsRef>', **kw)
+        add(f"oparse:NsRef-cut:{hd}", (), kind="oparse", clazz=39, doc='<NsRef xmlns="urn:r"><oops>', **kw)
+        add(f"oparse:NsRef-tree:{hd}", (), kind="oparse", clazz=39, source="tree",
+            doc='<NsRef xmlns="urn:r" kind="plain"><ref>item</ref></NsRef>', **kw)
+        add(f"oparse:NsRef-tree-ns0:{hd}", (), kind="oparse", clazz=39, source="tree",
+            doc='<r:NsRef xmlns:r="urn:r" kind="ns0:k"><r:ref>ns0:item</r:ref></r:NsRef>', **kw)
         # one name as attribute and as child element of classes with attribute / element wildcards
         for cname, cid in (("Bag", 27), ("BagA", 28), ("BagE", 29)):
             add(f"oparse:{cname}-attr:{hd}", (), kind="oparse", clazz=cid, doc=f'<{cname} code="7"/>', **kw)
@@ -682,7 +695,7 @@ def gen_sequences(ck, ops):
             kinds["compound"] += 1
     # prefix / wildcard-lookup groups: all ordered pairs and triples inside a group
     kinds["groups"] = 0
-    for key in ("RefBox", "Holder-decl-p", "Bag-", "BagA-", "BagE-"):
+    for key in ("RefBox", "Holder-decl-p", "Bag-", "BagA-", "BagE-", "NsRef-"):
         for hd in ("native", "lxml"):
             mine = [i for i, o in enumerate(ops) if o["tag"].startswith("oparse:") and o["tag"].endswith(":" + hd)
                     and (key in o["tag"] or (key == "Holder-decl-p" and "Holder-undecl-p" in o["tag"]))]
